@@ -88,4 +88,49 @@ theorem credit_lower (ho : 0 < o) (hy : 0 < y) (hS : 0 < S) (hc : c ≤ o) :
     _ = (K + 1) * (S * o * o * y) + o * o * y + y * (o - c) * sa := by
         rw [Nat.add_mul, Nat.add_mul]; congr 2; ac_rfl
 
+/-- `credit_upper` without the validator total: when the share is below `total + 1` tokens (invariant I5) the credit
+exceeds the exact value by at most 2 atomics -/
+theorem credit_upper_free (ho : 0 < o) (hS : 0 < S) (hc : c ≤ o) (hsa : sa ≤ o * (S + 1)) :
+    ((S * A * T / y - S * A * T / y * c / o) * sa / o / S) * (o * o * y) ≤ A * T * (o - c) * sa + 2 * (o * o * y) := by
+  have h := credit_upper S A T c sa o y ho hc
+  generalize (S * A * T / y - S * A * T / y * c / o) * sa / o / S = K at h ⊢
+  have h2 : sa ≤ 2 * o * S := by
+    have : o * (S + 1) ≤ o * (2 * S) := Nat.mul_le_mul_left o (by omega)
+    have e : o * (2 * S) = 2 * o * S := by ac_rfl
+    omega
+  have h3 : o * y * sa ≤ S * (2 * (o * o * y)) := by
+    calc o * y * sa ≤ o * y * (2 * o * S) := Nat.mul_le_mul_left _ h2
+      _ = S * (2 * (o * o * y)) := by ac_rfl
+  have h4 : S * (K * (o * o * y)) ≤ S * (A * T * (o - c) * sa + 2 * (o * o * y)) := by
+    calc S * (K * (o * o * y)) = K * (S * o * o * y) := by ac_rfl
+      _ ≤ S * A * T * (o - c) * sa + o * y * sa := h
+      _ ≤ S * A * T * (o - c) * sa + S * (2 * (o * o * y)) := Nat.add_le_add_left h3 _
+      _ = S * (A * T * (o - c) * sa + 2 * (o * o * y)) := by rw [Nat.mul_add]; congr 1; ac_rfl
+  exact Nat.le_of_mul_le_mul_left h4 hS
+
+/-- `credit_lower` without the validator total: the credit falls short of the exact value by at most 4 atomics -/
+theorem credit_lower_free (ho : 0 < o) (hy : 0 < y) (hS : 0 < S) (hc : c ≤ o) (hsa : sa ≤ o * (S + 1)) :
+    A * T * (o - c) * sa ≤ ((S * A * T / y - S * A * T / y * c / o) * sa / o / S + 4) * (o * o * y) := by
+  have h := credit_lower S A T c sa o y ho hy hS hc
+  generalize (S * A * T / y - S * A * T / y * c / o) * sa / o / S = K at h ⊢
+  have h2 : sa ≤ 2 * o * S := by
+    have : o * (S + 1) ≤ o * (2 * S) := Nat.mul_le_mul_left o (by omega)
+    have e : o * (2 * S) = 2 * o * S := by ac_rfl
+    omega
+  have h3 : y * (o - c) * sa ≤ S * (2 * (o * o * y)) := by
+    calc y * (o - c) * sa ≤ y * o * (2 * o * S) :=
+          Nat.mul_le_mul (Nat.mul_le_mul_left y (Nat.sub_le o c)) h2
+      _ = S * (2 * (o * o * y)) := by ac_rfl
+  have h5 : o * o * y ≤ S * (o * o * y) := Nat.le_mul_of_pos_left _ hS
+  have h4 : S * (A * T * (o - c) * sa) ≤ S * ((K + 4) * (o * o * y)) := by
+    calc S * (A * T * (o - c) * sa) = S * A * T * (o - c) * sa := by ac_rfl
+      _ ≤ (K + 1) * (S * o * o * y) + o * o * y + y * (o - c) * sa := h
+      _ ≤ (K + 1) * (S * o * o * y) + S * (o * o * y) + S * (2 * (o * o * y)) :=
+          Nat.add_le_add (Nat.add_le_add_left h5 _) h3
+      _ = S * ((K + 4) * (o * o * y)) := by
+          have e1 : (K + 1) * (S * o * o * y) = S * ((K + 1) * (o * o * y)) := by ac_rfl
+          rw [e1, ← Nat.mul_add, ← Nat.mul_add]; congr 1
+          rw [Nat.add_mul K 4, Nat.add_mul K 1, Nat.one_mul]; omega
+  exact Nat.le_of_mul_le_mul_left h4 hS
+
 end CwMt.Staking.Arith
